@@ -145,6 +145,7 @@ func runC09(c *Ctx, phase string) {
 	c.Floor("extract_comparisons", 10000)
 	c.Floor("result_true", 3000)
 	c.Floor("result_false", 3000)
+	c.Floor("long_expression_case_checks", 40)
 	c.Floor("table_case_checks", int64(2*(len(u.AllLicense)-len(u.DepPlusIDs)+len(u.Exceptions))))
 
 	if c.Shard == 0 {
@@ -233,6 +234,55 @@ func runC09(c *Ctx, phase string) {
 					c.Sample(map[string]any{"id": id, "variant": v, "expression_with_hole": strings.ReplaceAll(text, hole, "<ID>"), "allowed_with_hole": strings.ReplaceAll(fmt.Sprint(allowed), hole, "<ID>")})
 				}
 			}
+		}
+	}
+	// very long expressions (600..900 ids): the ids beyond the first few hundred are case variants; must behave exactly
+	// like the canonical spelling of the same expression
+	for bi := 0; bi < 48; bi++ {
+		if !c.Mine(bi) {
+			continue
+		}
+		r := gen.NewRand(c.Seed, 0xC09B, uint64(bi))
+		n := 600 + r.Intn(300)
+		canon := make([]string, n)
+		variant := make([]string, n)
+		for i := range canon {
+			id := u.ActPlain[r.Intn(len(u.ActPlain))]
+			exc := ""
+			if r.Chance(1, 6) {
+				exc = r.Pick(u.Exceptions)
+			}
+			join := func(a, b string) string {
+				if b == "" {
+					return a
+				}
+				return a + " WITH " + b
+			}
+			canon[i], variant[i] = join(id, exc), join(id, exc)
+			if i >= 300 && r.Chance(1, 2) {
+				switch r.Intn(3) {
+				case 0:
+					variant[i] = join(strings.ToLower(id), strings.ToLower(exc))
+				case 1:
+					variant[i] = join(strings.ToUpper(id), strings.ToUpper(exc))
+				default:
+					variant[i] = join(caseVariants(id, r, 1)[0], exc)
+				}
+			}
+		}
+		op := []string{" AND ", " OR "}[bi%2]
+		e1, e2 := strings.Join(canon, op), strings.Join(variant, op)
+		v1, v2 := c.Valid(e1), c.Valid(e2)
+		allowed := []string{canon[n-1], canon[n/2], "MIT"}
+		if bi%4 < 2 {
+			allowed = canon[:n-1] // everything but the last term
+		}
+		s1, s2 := c.Sat(e1, allowed), c.Sat(e2, allowed)
+		x1, x2 := c.Ext(e1), c.Ext(e2)
+		c.Inc("long_expression_case_checks")
+		if v1 != v2 || s1.IsErr != s2.IsErr || s1.OK != s2.OK || !eqStrs(x1.List, x2.List) {
+			c.Violation("case:long-expression", "C09.long", C09Case{ID: "<long>", Expr: ev.QS(e2[:300])},
+				"a %d-term expression and the same expression with case variants of its later ids differ: valid %v/%v, Satisfies %s/%s, ExtractLicenses %d/%d terms", n, v1, v2, s1, s2, len(x1.List), len(x2.List))
 		}
 	}
 	// exception ids: varied after WITH
